@@ -8,16 +8,27 @@ PENDING = 0x40000000
 REGIONS = {"pend": (PENDING, PENDING), "resv": (PENDING + 1, PENDING + 1), "shrd": (PENDING + 2, PENDING + 511)}
 
 
+class Blocked(Exception):
+    """the agent did not answer within the time limit: the operation it runs is blocked"""
+
+
 class Proc:
     def __init__(self, argv, name):
         self.name = name
         self.p = subprocess.Popen(argv, stdin=subprocess.PIPE, stdout=subprocess.PIPE, stderr=subprocess.DEVNULL)
         self.pid = self.p.pid
 
-    def call(self, **cmd):
+    def call(self, _timeout=None, **cmd):
+        """_timeout (seconds): raise Blocked when the agent does not answer in time (an operation that sleeps in the
+        kernel instead of returning)"""
         try:
             self.p.stdin.write((json.dumps(cmd) + "\n").encode())
             self.p.stdin.flush()
+            if _timeout is not None:
+                import select
+                r, _, _ = select.select([self.p.stdout], [], [], _timeout)
+                if not r:
+                    raise Blocked("agent %s did not answer %s within %s s" % (self.name, cmd.get("cmd"), _timeout))
             line = self.p.stdout.readline()
         except BrokenPipeError:
             raise Infra("agent %s died" % self.name)
